@@ -94,6 +94,13 @@ func (n *Net) AddHook(h Hook)         { n.hooks = append(n.hooks, h) }
 func (n *Net) ClearHooks()            { n.hooks = nil }
 func (n *Net) Node(name string) *Node { return n.nodes[name] }
 
+// Seq returns the sequence number of the last recorded event.
+func (n *Net) Seq() int {
+	n.mu.Lock()
+	defer n.mu.Unlock()
+	return n.seq
+}
+
 func (n *Net) record(ev *NetEvent) {
 	if n.NoLog {
 		return
